@@ -36,7 +36,7 @@ def worker(repo, job):
   out = {}
   for k in order:
     name, src = progs[k]
-    options = config.Options.create(python_version=PYVER)
+    options = config.Options.create(python_version=PYVER, typeshed=False)   # only the stubs bundled with pytype (no typeshed checkout in this sandbox)
     if job['reuse_loader']:
       if shared is None:
         shared = load_pytd.create_loader(options)
@@ -128,7 +128,7 @@ def main():
         pre_violations.append(w)
   tier = payload.get('tier', 'quick')
   seed = payload.get('seed', 0)
-  progs = corpus.load(repo, stride=4 if tier == 'quick' else 1)
+  progs = corpus.load(repo, stride=4 if tier == 'quick' else 1, extra_modules=corpus.BUNDLED)
   nshards = 8
   shards = [progs[i::nshards] for i in range(nshards)]
   # the hand-written collision/stress programs go into every shard (8 shards x configs = many hash seeds each)
